@@ -149,8 +149,9 @@ class Session(object):
             if met not in vars_:
                 continue
             v = vars_[met]
-            pairs = [(m.atom(v, lab), met + ":" + lab) for lab in v.domain if lab is not ABSENT]
-            val = vc.mk_union(pairs, sweep=False)
+            # total union: where the metric is absent the chunk is not there and its text ("")
+            # is never looked at
+            val = vc.from_var(v, lambda lab, met=met: "" if lab is ABSENT else met + ":" + lab)
             if ABSENT in v.index:
                 pres = m.NOT(m.atom(v, ABSENT))
             else:
@@ -359,6 +360,20 @@ def run_tasks(fn, tasks, procs=None):
         for r in rs:
             out.append(r.get())
     return out
+
+
+def run_named_tasks(modname, tasks, procs=None):
+    """tasks: [(function name, args tuple)] all in module modname"""
+    import multiprocessing as mp
+
+    if procs is None:
+        procs = min(len(tasks), int(os.environ.get("VERIF_PROCS", "14")))
+    if procs <= 1 or len(tasks) <= 1:
+        return [_invoke(modname, f, a) for f, a in tasks]
+    ctx = mp.get_context("fork")
+    with ctx.Pool(procs, maxtasksperchild=1) as pool:
+        rs = [pool.apply_async(_invoke, (modname, f, a)) for f, a in tasks]
+        return [r.get() for r in rs]
 
 
 # -------------------------------------------------------------------------------------------------
